@@ -50,7 +50,7 @@ def _single_assign(fnode, name):
     return vals[0] if len(vals) == 1 else None
 
 
-def _kind(repo, ci, fi, e, depth=0):
+def _kind(repo, ci, fi, e, depth=0, at=None):
     """'total' | 'strict' | 'text' | 'unknown' for an expression handed to the response body."""
     if depth > 6:
         return 'unknown', e
@@ -60,6 +60,12 @@ def _kind(repo, ci, fi, e, depth=0):
         assigns = [s for s in stmts_of(fi.node) if isinstance(s, ast.Assign) and len(s.targets) == 1 and norm(s.targets[0]) == e.id]
         if not assigns:
             return 'unknown', e
+        if at is not None:
+            if _sanitised_before(repo, fi, e.id, at):
+                return 'total', e
+            last = _last_binding_in_block(fi, e.id, at)
+            if last is not None:
+                assigns = [last]
         ks = []
         for a in assigns:
             v = a.value
@@ -69,7 +75,7 @@ def _kind(repo, ci, fi, e, depth=0):
                 if has_cond(cs, lambda t: isinstance_test(t, v.id, 'bytes'), True):
                     ks.append(('total', v))
                     continue
-            ks.append(_kind(repo, ci, fi, v, depth + 1))
+            ks.append(_kind(repo, ci, fi, v, depth + 1, a))
         for want in ('text', 'strict', 'unknown'):
             for k in ks:
                 if k[0] == want:
@@ -210,7 +216,7 @@ def check_total_body_encoding(rep, rule):
                 if isinstance(e, ast.Name) and has_cond(conds(fi, n), lambda t: isinstance_test(t, e.id, 'bytes'), True):
                     kind, at = 'total', e        # on the branch where the value is already bytes
                 else:
-                    kind, at = _kind(repo, ci, fi, e)
+                    kind, at = _kind(repo, ci, fi, e, 0, n)
                 if kind == 'unknown':
                     dk = _dyn_dispatch_kind(repo, ci, fi, e)
                     if dk is not None:
@@ -349,8 +355,10 @@ def _sanitised_before(repo, fi, name, at):
     i = block.index(st)
     for j in range(i - 1, -1, -1):
         s = block[j]
+        neg_bytes = isinstance(s, ast.If) and isinstance(s.test, ast.UnaryOp) and isinstance(s.test.op, ast.Not) and \
+            isinstance_test(s.test.operand, name, 'bytes')
         if isinstance(s, ast.If) and not s.orelse and \
-                (isinstance_test(s.test, name, 'str') or isinstance_test(s.test, name, 'unicode')):
+                (isinstance_test(s.test, name, 'str') or isinstance_test(s.test, name, 'unicode') or neg_bytes):
             sets = [x for x in s.body if isinstance(x, ast.Assign) and len(x.targets) == 1 and norm(x.targets[0]) == name]
             if len(sets) == 1 and len(s.body) == 1 and isinstance(sets[0].value, ast.Call) and \
                     _is_str_encode(repo, fi, sets[0].value) and norm(sets[0].value.func.value) == name and \
